@@ -1,6 +1,7 @@
 import BeyondVerif.Model.ManF
 import BeyondVerif.Model.ManWin
 import BeyondVerif.Model.FrameReg
+import BeyondVerif.Model.FrameName
 import BeyondVerif.Drv.Util
 namespace BeyondVerif.Drv.C17
 open BeyondVerif BeyondVerif.Drv BeyondVerif.F BeyondVerif.ManWin BeyondVerif.Generated
@@ -22,16 +23,74 @@ def splitOnBar (toks : List String) : List String × List String :=
 partial def parseOps : List String → Option (List FrameReg.Op)
   | [] => some []
   | "reg" :: name :: tag :: id :: rest => do
-    let n ← id.toNat?
+    -- `<id>` or `<id>@<number of orientation links from the parent to EME2000>`
+    let parts := id.splitOn "@"
+    let n ← (parts.getD 0 "").toNat?
+    let pd ← if parts.length = 2 then (parts.getD 1 "").toNat? else some 0
     let ops ← parseOps rest
-    pure (FrameReg.Op.reg name ⟨tag, n⟩ :: ops)
+    pure (FrameReg.Op.reg name ⟨tag, n, pd⟩ :: ops)
   | "conv" :: name :: rest => do
     let ops ← parseOps rest
     pure (FrameReg.Op.conv name :: ops)
   | _ => none
 
+/-- a name on the wire: `~` = None, `-` = the empty string, otherwise the code points joined by commas -/
+def nameOf (tok : String) : Option (Option (List Char)) :=
+  if tok = "~" then some none
+  else if tok = "-" then some (some [])
+  else ((tok.splitOn ",").mapM (fun (t : String) => t.toNat?)).map (fun cs => some (cs.map Char.ofNat))
+
+def butcherOf : String → Option (List (Int × Int) × List Int × Int)
+  | "euler" => some (butcherC_euler, butcherW_euler, butcherD_euler)
+  | "rk4" => some (butcherC_rk4, butcherW_rk4, butcherD_rk4)
+  | "rkf54" => some (butcherC_rkf54, butcherW_rkf54, butcherD_rkf54)
+  | "dopri54" => some (butcherC_dopri54, butcherW_dopri54, butcherD_dopri54)
+  | _ => none
+
+/-- `nb (mu px py pz)*nb nm (on tag ax ay az)*nm` -/
+def parseBodies : Nat → List String → Option (List (Float × V3) × List String)
+  | 0, rest => some ([], rest)
+  | n + 1, toks => do
+    let (fs, rest) ← takeFloats 4 toks
+    match fs with
+    | [mu, x, y, z] =>
+      let (bs, rest') ← parseBodies n rest
+      pure ((mu, v3 x y z) :: bs, rest')
+    | _ => none
+
+def parseMans : Nat → List String → Option (List ContMan × List String)
+  | 0, rest => some ([], rest)
+  | n + 1, on :: tag :: toks => do
+    let t ← tagOf tag
+    let (fs, rest) ← takeFloats 3 toks
+    match fs with
+    | [x, y, z] =>
+      let (ms, rest') ← parseMans n rest
+      pure (⟨on = "1", t, v3 x y z⟩ :: ms, rest')
+    | _ => none
+  | _, _ => none
+
+/-- `ref <kind> <frame> <form> b0..b5` … `|` ops -/
+partial def parseRefs : List String → Option (List FrameReg.RefObj × List String)
+  | "ref" :: kind :: frame :: form :: rest =>
+    if rest.length < 6 then none else do
+      let cs ← (rest.take 6).mapM (fun (t : String) => t.toNat?)
+      let (rs, rest') ← parseRefs (rest.drop 6)
+      pure (⟨kind, frame, form, cs⟩ :: rs, rest')
+  | "|" :: rest => some ([], rest)
+  | _ => none
+
 /--
-`c17.session reg <name> <tag> <id> conv <name> …` → for each conv `tag:id` (or `unknown`), the binding it must use
+`c17.world ref <kind> <frame> <form> b0..b5 … | reg <name> <tag> <id> conv <name> …` → for each conv what it reads:
+                                                `tag:id:kind:frame:form:b0,…,b5` (or `unknown`)
+`c17.offset num den step`                     → `step * c` in µs for the float node `c = num/den`
+`c17.thrust <method> start stop t0 h1 h2 …`   → `D ·` thrust time (µs) and `D`
+`c17.accel x0..x5 nb (mu px py pz)… nm (on tag ax ay az)…` → 3 floats `_accel(orb)[3:]` (or `unbound`)
+`c17.name <imp|cont|o2f|local|kepcont> <name>` → `qsw | tnw | identity | value-error`
+`c17.kcont x0..x5 mu a i v da di dO duration`  → 3 floats, `KeplerianContinuousMan.accel`
+`c17.kepplane c0..c5`                         → inclination, node-direction arguments (Y, X) of `_cartesian_to_keplerian`
+`c17.session reg <name> <tag> <id>[@<pdist>] conv <name> …` → for each conv `tag:id/tagInto:idInto` (or `unknown`): the latest
+                                                registration and the one whose axes a conversion *into* the frame uses
 `c17.local <QSW|TNW> x0..x5`                 → 9 floats, `to_local(tag, x, expanded=False)` row-major; other tags: `value-error`
 `c17.proj <QSW|TNW|-> x0..x5 d0 d1 d2`       → 3 floats, `ImpulsiveMan.dv` / `ContinuousMan.accel`
 `c17.accdv <QSW|TNW|-> x0..x5 d0 d1 d2 dur`  → 3 floats, `ContinuousMan(dv=…).accel`
@@ -45,11 +104,70 @@ partial def parseOps : List String → Option (List FrameReg.Op)
 `c17.cont <euler|rk4|rkf54|dopri54> start stop date step` → 0/1 per stage
 -/
 def handle : List String → Option String
+  | "c17.world" :: rest => some <|
+    match parseRefs rest with
+    | some (refs, opsT) =>
+      match parseOps opsT with
+      | some ops => joinWith " " ((FrameReg.runW ⟨[], refs⟩ ops).map (fun
+          | some (e, some r) => e.tag ++ ":" ++ toString e.orbit ++ ":" ++ r.kind ++ ":" ++ r.frame ++ ":" ++ r.form ++ ":" ++ joinWith "," (r.coords.map toString)
+          | some (e, none) => e.tag ++ ":" ++ toString e.orbit ++ ":no-such-object"
+          | none => "unknown"))
+      | none => "bad-op"
+    | none => "bad-op"
+  | ["c17.offset", num, den, step] => some <|
+    match num.toInt?, den.toInt?, step.toInt? with
+    | some a, some b, some h => toString (stageOffset (a, b) h)
+    | _, _, _ => "bad-op"
+  | "c17.thrust" :: meth :: rest => some <|
+    match butcherOf meth, takeInts rest.length rest with
+    | some (cs, ws, d), some (start :: stop :: t0 :: steps, _) => toString (thrustUnits cs ws start stop t0 steps) ++ " " ++ toString d
+    | _, _ => "bad-op"
+  | "c17.accel" :: rest => some <|
+    match takeFloats 6 rest with
+    | some ([a, b, c, d, e, f], nb :: rest1) =>
+      match nb.toNat? with
+      | some nbn =>
+        match parseBodies nbn rest1 with
+        | some (bodies, nm :: rest2) =>
+          match nm.toNat? with
+          | some nmn =>
+            match parseMans nmn rest2 with
+            | some (mans, []) =>
+              match accelOf (v3 a b c) (v3 d e f) bodies mans with
+              | some r => fsToStr r.toList
+              | none => "unbound"
+            | _ => "bad-op"
+          | none => "bad-op"
+        | _ => "bad-op"
+      | none => "bad-op"
+    | _ => "bad-op"
+  | ["c17.name", what, tok] => some <|
+    match nameOf tok with
+    | some f =>
+      match what, f with
+      | "imp", _ => (FrameName.impulsiveSel f).toString
+      | "cont", _ => (FrameName.continuousSel f).toString
+      | "o2f", _ => (FrameName.orbit2frameSel f).toString
+      | "local", some s => (FrameName.toLocalSel Generated.FrameNames.toLocalTable s).toString
+      | "kepcont", _ => FrameName.keplerianContinuousSel.toString
+      | _, _ => "bad-op"
+    | none => "bad-op"
+  | "c17.kcont" :: rest => some <|
+    match takeFloats 14 rest with
+    | some ([a, b, c, d, e, f, mu, sma, i, v, da, di, dO, dur], _) => fsToStr (kepContAccel (v3 a b c) (v3 d e f) mu sma i v da di dO dur).toList
+    | _ => "bad-op"
+  | "c17.kepplane" :: rest => some <|
+    match takeFloats 6 rest with
+    | some ([a, b, c, d, e, f], _) => fsToStr [kepInc a b c d e f, kepNodeY a b c d e f, kepNodeX a b c d e f]
+    | _ => "bad-op"
   | "c17.session" :: rest => some <|
     match parseOps rest with
-    | some ops => joinWith " " ((FrameReg.run [] ops).map (fun
+    | some ops =>
+      -- per conversion: the latest registration (origin, conversions out of the frame) `/` the one whose axes a conversion into it uses
+      let show1 : Option FrameReg.Entry → String := fun
         | some e => e.tag ++ ":" ++ toString e.orbit
-        | none => "unknown"))
+        | none => "unknown"
+      joinWith " " (((FrameReg.run [] ops).zip (FrameReg.runInto [] ops)).map (fun p => show1 p.1 ++ "/" ++ show1 p.2))
     | none => "bad-op"
   | "c17.local" :: tag :: rest => some <|
     match tagOf tag, takeFloats 6 rest with
